@@ -44,6 +44,17 @@ def handle (args : List String) : String :=
       let some x := parseVec? (2 * n) x | return "bad-op"
       let some hs := (if hs = "-" then some [] else (hs.splitOn ";").mapM (parseVec? (2 * n))) | return "bad-op"
       return vecStr (2 * n) (tvs n x hs)
+  | ["tvb", n, _shape, rows, hs] => Id.run do
+      -- batched transvection: `rows` = the array flattened to its rows (any number ≥ 1), `_shape` only informs the harness
+      let some n := n.toNat? | return "bad-op"
+      let some rows := (rows.splitOn ";").mapM (parseVec? (2 * n)) | return "bad-op"
+      let some hs := (if hs = "-" then some [] else (hs.splitOn ";").mapM (parseVec? (2 * n))) | return "bad-op"
+      return ";".intercalate ((tvsBatch n rows hs).map (vecStr (2 * n)))
+  | ["ipb", n, _shape, rows, w] => Id.run do
+      let some n := n.toNat? | return "bad-op"
+      let some rows := (rows.splitOn ";").mapM (parseVec? (2 * n)) | return "bad-op"
+      let some w := parseVec? (2 * n) w | return "bad-op"
+      return bitsStr (ipBatch n rows w)
   | ["find", n, v, w] => Id.run do
       let some n := n.toNat? | return "bad-op"
       let some v := parseVec? (2 * n) v | return "bad-op"
